@@ -205,6 +205,8 @@ func (c *Channel) Close() error {
 }
 
 func (c *Channel) close() error {
+	verifYield("cclose.enter")
+
 	c.l.Info("channel closing...")
 
 	// closing (rather than sending on) done means the read loop sees it whenever it looks next,
@@ -212,8 +214,12 @@ func (c *Channel) close() error {
 	// blocked if the read loop has already exited.
 	close(c.done)
 
+	verifYield("cclose.post_done")
+
 	select {
 	case <-c.readLoopDone:
+		verifYield("cclose.graceful")
+
 		c.l.Debug("closing underlying transport...")
 
 		return c.t.Close(false)
@@ -221,6 +227,8 @@ func (c *Channel) close() error {
 		// channel is stuck in a blocking read (almost always the case for netconf!), force close
 		// transport to finish closing connection, so give it c.ReadDelay*(c.ReadDelay/1000) to
 		// "nicely" exit -- with defaults this ends up being 62.5ms.
+		verifYield("cclose.forced")
+
 		c.l.Debug("force closing underlying transport...")
 
 		return c.t.Close(true)
